@@ -466,6 +466,27 @@ def padding_witness(chk, tools):
                     'an eightbyte of padding only gets an INTEGER register from c2m and none from gcc: ' + PADDING_WITNESS)
 
 
+def libc_part(chk, tools):
+    """harness/c08_libc.c under c2m (-ei, -eg) and gcc: identical output lines"""
+    src = os.path.join(vlib.VERIF, 'harness', 'c08_libc.c')
+    exe = os.path.join(tools.dir, 'libc.gcc')
+    rc, out, err = vlib.sh(['gcc', '-w', '-O0', '-std=gnu11', src, '-o', exe], timeout=300)
+    if rc != 0:
+        raise vlib.BuildError('gcc failed on harness/c08_libc.c: ' + err[-500:])
+    rc, ref, err = vlib.sh([exe], timeout=60)
+    ref = ref.split('\n')
+    for mode in ('-ei', '-eg'):
+        rc, out, err = vlib.sh([tools.c2m, src, mode], timeout=300, cwd=tools.dir)
+        got = out.split('\n')
+        chk.count('libc ' + mode, n=len(ref))
+        diffs = [(a, b) for a, b in zip(got + [''] * len(ref), ref) if a != b]
+        if rc != 0 or diffs:
+            a, b = diffs[0] if diffs else ('rc=%d %s' % (rc, err[-200:]), '')
+            chk.finding('libc:%s' % (b.split()[0] if b.split() else 'run'), dict(kind='libc', mode=mode, c2m=a, gcc=b, rc=rc, err=err[-300:]),
+                        'c2m-compiled code and gcc-compiled code disagree on libc data (%s): c2m[%s] gcc[%s]' % (mode, a, b))
+    chk.log('libc structures and struct-valued libc calls: %d lines compared' % len(ref))
+
+
 def sanitizer_part(chk, tools):
     """thorough: c2m built with ASan/UBSan compiles (not runs) a layout TU and a signature TU: out-of-bounds
     accesses in the layout/classification code (e.g. of qword_types[]) are findings"""
@@ -524,6 +545,7 @@ def run(chk):
         pb, pper = (1, 180) if quick else (12, 400)
         for b in range(pb):
             passing_part(chk, tools, gen_small(chk, pper, 'passing%d' % b), 'passing batch %d' % b)
+        libc_part(chk, tools)
         if not quick:
             sanitizer_part(chk, tools)
         chk.cov['rule'] = ('each generated declaration is compiled into one probe TU run by c2m (-ei) and by gcc; sizeof, '
@@ -572,6 +594,10 @@ def replay(chk, path):
             v = kverdict(t, r)
             print('verdict:', v)
             return 0 if v == 'ok' else 1
+        if rp.get('kind') == 'libc':
+            before = len(chk.violations)
+            libc_part(chk, tools)
+            return 1 if len(chk.violations) > before else 0
         if rp.get('kind') == 'passing':
             t = G.parse_text(rp['decl'])
             pos = rp.get('index', 0)
